@@ -229,7 +229,7 @@ def gen_case(rng, tier):
             chain_items.append([ck, SP('xref', path=cur)])
             cur = ck
         i2 = s.uid()
-        ckind = rng.choice(['call', 'call', 'eval', 'fstr', 'bindarg', 'eval_nested_fn', 'call_container', 'nested_first', 'nested_first'])
+        ckind = rng.choice(['call', 'call', 'eval', 'fstr', 'bindarg', 'eval_nested_fn', 'call_container', 'nested_first', 'nested_first', 'eval_ayns'])
         name_expr = cur.split('.')[0] + ''.join(f'["{c}"]' for c in cur.split('.')[1:])
         if ckind == 'call':
             cons = SP('call', func=f'verif_targets.s{i2}', args=L([SP('xref', path=cur)]))
@@ -242,6 +242,9 @@ def gen_case(rng, tier):
             cons = SP('call', func=f'verif_targets.s{i2}', args=M([['whole', SP('xref', path=cur.split('.')[0])]]))
         elif ckind == 'bindarg':
             cons = SP('call', func=f'verif_targets.s{i2}', args=M([['p', SP('bind', func=f'verif_targets.s{i2}b', args=M([['a', SP('xref', path=cur)]]))]]))
+        elif ckind == 'eval_ayns':
+            # the other way evaluated code can reach config entries: the ayns.cfg object handed to it
+            cons = SP('eval', code=f'T.s{i2}(ayns.cfg.' + cur.split('.')[0] + ''.join(f'["{c}"]' for c in cur.split('.')[1:]) + ')')
         elif ckind == 'eval':
             cons = SP('eval', code=f'T.s{i2}({name_expr})')
         elif ckind == 'eval_nested_fn':
